@@ -548,7 +548,7 @@ dbus_bool_t _dbus_credentials_add_from_user (DBusCredentials *credentials, const
   PRE (CRED_LIVE (credentials), "_dbus_credentials_add_from_user"); STR_PRE (username, "_dbus_credentials_add_from_user");
   g_add_from_user_calls++; g_userdb_ok = 0;
   if (nondet_bool ()) { model_set_error (error, nondet_bool ()); return FALSE; }
-  dbus_uid_t u = nondet_ulong (); __CPROVER_assume (u != DBUS_UID_UNSET);
+  dbus_uid_t u = nondet_ulong ();      /* any number, INCLUDING the one that spells DBUS_UID_UNSET ("18446744073709551615"): a numeric identity is taken literally (dbus-userdb.c), so TRUE does not imply that the identity now names a user */
   credentials->unix_uid = u; g_userdb_ok = 1; g_userdb_uid = u;
   return TRUE;
 }
